@@ -68,7 +68,18 @@ def respell(text, rnd, fortran=False, message=True, numbers=True):
                         t = respell_number(t, rnd, fortran)
             if re.search(r'[a-zA-Z]', t) and not TOKEN.match(t):
                 mode = rnd.random()
-                t = t.upper() if mode < 0.3 else (t.lower() if mode < 0.6 else ''.join(c.upper() if rnd.random() < 0.5 else c.lower() for c in t))
+                if t.startswith('*') and mode >= 0.4:
+                    # starred mnemonics (*TR, *FILL, *TRCL): genuinely mixed case, alternating letters
+                    k0 = rnd.randint(0, 1)
+                    letters = [i_ for i_, c in enumerate(t) if c.isalpha()]
+                    t = ''.join((c.upper() if (letters.index(i_) + k0) % 2 == 0 else c.lower()) if c.isalpha() else c for i_, c in enumerate(t))
+                    mode = -1.0
+                if mode < 0:
+                    pass
+                elif mode < 0.3:
+                    t = t.upper()
+                else:
+                    t = t.lower() if mode < 0.6 else ''.join(c.upper() if rnd.random() < 0.5 else c.lower() for c in t)
             new.append(t)
         # blank space / tabs / continuation / comments
         pieces = [new[0]]
